@@ -320,6 +320,7 @@ class Sign(Machine):
         match = key_matches(kinfo["kind"], op["alg"])
         signed = n_sigs > 0
         expect_refuse = (signed and op["action"] == "error") or (not match and not (signed and op["action"] == "skip"))
+        host.mask(out_rel)
         o = self._run_sign1(host, model, op, faults, in_rel, out_rel)
         self.note(model, o)
         faulted = bool(o.fired)
@@ -383,8 +384,6 @@ class Sign(Machine):
         if out is None:
             return [violation(prop, "output-missing", op["i"], "sign reported success but wrote no output")]
         self._remember_out(model, op, out_rel)
-        if host.swarm.get("entropy") == "real":
-            host.disk.opaque.add(out_rel)
         cnt = model["signed_count"].get(out_rel, model["signed_count"].get(in_rel, 0)) + 1
         model["signed_count"][out_rel] = cnt
         if cnt >= 2:
@@ -552,6 +551,7 @@ class Sign(Machine):
                     os.environ["ZEPHYR_BASE"] = zb
                     os.environ.pop("NCS_SUIT_SIGN_SCRIPT", None)
                     os.environ.pop("NCS_SUIT_KMS_SCRIPT", None)
+            host.mask(out_rel)
             o = host.cli(argv, kind="signrec", faults=faults)
             if o.cls == "crash" and host.swarm.get("rerun_after_crash") and in_rel != out_rel:
                 o = host.cli(argv, kind="signrec")
@@ -610,8 +610,6 @@ class Sign(Machine):
         if out is None:
             return [violation(prop, "output-missing", op["i"], "sign recursive reported success but wrote no output")]
         self._remember_out(model, op, out_rel)
-        if host.swarm.get("entropy") == "real":
-            host.disk.opaque.add(out_rel)
         ex["recursive_ok"] += 1
         if slot["shape"]["deps"]:
             model["_nontrivial"] = True
